@@ -17,8 +17,8 @@ func TestC11(t *testing.T) {
 	}
 	nrun.Main(t, &nrun.Check{
 		ID: "C11", TestName: "TestC11", Plans: tscen.AllPlans(),
-		QuickTime: 110 * time.Second, ThorTime: 18 * time.Minute,
-		Rule:   "engine N: every order of application calls (Begin/Produce x2/Flush/EndTransaction(TryCommit)/documented TryAbort retries, two transactions back to back), request/response frame deliveries, timer ticks (transaction timeout 10 s) and injected faults on InitProducerID, AddPartitionsToTxn, Produce, EndTxn (connection kill before/after handling, COORDINATOR_NOT_AVAILABLE/LOAD_IN_PROGRESS/NOT_COORDINATOR, CONCURRENT_TRANSACTIONS, NOT_LEADER, INVALID_PRODUCER_EPOCH, PRODUCER_FENCED) within k deviations of the default order; six scenarios: KIP-890p2 broker and TV1 broker (Produce v11/EndTxn v4, explicit AddPartitionsToTxn) x RequestRetries 1 (application always aborts after a failed commit) and RequestRetries 0 (one lost response already surfaces an unconfirmed End; application retries TryAbort only for the documented error classes and first probes the documented refusal of a TryCommit retry), plus T-offsets / T-offsets-tv1: the same two transactions through a single-member GroupTransactSession (one input record polled per transaction, AddOffsetsToTxn/TxnOffsetCommit in the sequence, faults also on those) where additionally the group's committed offset must be exactly that of the last transaction whose records are visible. Quick tier: k=1 complete, then pairs of faults (k=2, both deviations faults) until the time slice ends; thorough tier: all pairs of deviations (k=2); distinct = distinct terminal outcomes (per transaction: promise results, End results, EndTxn frames seen, visible records)",
+		QuickTime: 120 * time.Second, ThorTime: 18 * time.Minute,
+		Rule:   "engine N. Generated family TG (tscen/gen.go): every (broker KIP-890p2|TV1, transaction timeout 6 s; script of the transactional producer: one or two rounds Begin / Produce x2 / settle (Flush | AbortBufferedRecords | nothing) / end (EndTransaction(TryCommit) with the documented TryAbort retries | EndTransaction(TryAbort) | none) with 8 s of application time (longer than the transaction timeout) after the produces, before End or after End; Close at the end or not; gate at which a second client with the same transactional id runs one committed transaction: never | after round 0 produced | settled | ended | after round 1 produced), every call issued whatever the earlier ones returned, on the default schedule in the quick tier (2 x 276 x 6 = 3312 executions), 2 x 1332 x 10 = 26640 plus single deviations, time-capped, in the thorough tier; reference model per record (transaction current at Produce, settled before End or not). Hand-written scenarios: every order of application calls (Begin/Produce x2/Flush/EndTransaction(TryCommit)/documented TryAbort retries, two transactions back to back), request/response frame deliveries, timer ticks (transaction timeout 10 s) and injected faults on InitProducerID, AddPartitionsToTxn, Produce, EndTxn (connection kill before/after handling, COORDINATOR_NOT_AVAILABLE/LOAD_IN_PROGRESS/NOT_COORDINATOR, CONCURRENT_TRANSACTIONS, NOT_LEADER, INVALID_PRODUCER_EPOCH, PRODUCER_FENCED) within k deviations of the default order; six scenarios: KIP-890p2 broker and TV1 broker (Produce v11/EndTxn v4, explicit AddPartitionsToTxn) x RequestRetries 1 (application always aborts after a failed commit) and RequestRetries 0 (one lost response already surfaces an unconfirmed End; application retries TryAbort only for the documented error classes and first probes the documented refusal of a TryCommit retry), plus T-offsets / T-offsets-tv1: the same two transactions through a single-member GroupTransactSession (one input record polled per transaction, AddOffsetsToTxn/TxnOffsetCommit in the sequence, faults also on those) where additionally the group's committed offset must be exactly that of the last transaction whose records are visible. Quick tier: k=1 complete, then pairs of faults (k=2, both deviations faults) until the time slice ends; thorough tier: all pairs of deviations (k=2); distinct = distinct terminal outcomes (per transaction: promise results, End results, EndTxn frames seen, visible records)",
 		Assume: []string{"kfake is the broker (transactions complete synchronously)", "read_committed view computed from the raw log (next control marker of the producer id decides)", "an End that returned an error after its commit request reached the broker is an unconfirmed outcome: its records may be visible, but only through that transaction's own marker, completely and once", "synctests build of xsync", "goroutine micro-interleavings inside one event are the Go runtime's"},
 	})
 }
